@@ -106,9 +106,11 @@ def evCost : Ev → Cost
   | .branch _ _ => { mapOps := 1, pushed := 1 }
   | .reject _ => {}
 
-/-- one iteration of the loop on the raw line `raw` (as `read_until` returned it) -/
+/-- one iteration of the loop on the raw line `raw` (as `read_until` returned it); since /repo
+7f9b2b3 the stripped line is decoded with `from_utf8_lossy` first (`Lcov.utf8Lossy`, one more pass
+over the line; a name can grow to three times its bytes) -/
 def lineCost (raw : Bytes) : Cost :=
-  (evCost (classify (stripEol raw))).add { reads := raw.length, lines := 1 }
+  (evCost (classify (Lcov.utf8Lossy (stripEol raw)))).add { reads := raw.length, lines := 1 }
 
 def costLines : St → List Bytes → Cost
   | .halt _, _ => {}
